@@ -178,9 +178,64 @@ def validator_replay(doc, inp, r, work, root, repo):
     doc['native'] = 'reproduced' if p.returncode != 0 else 'not-reproduced'
     doc['replay_driver'] = code; doc['replay_argv'] = [bs.hex()]
 
+def fieldval(inp, suffix, default=0):
+    for o in inp['objects']:
+        for k, v in o.get('fields', {}).items():
+            if k == suffix or k.endswith(suffix):
+                if v is None: continue
+                m = re.match(r'^-?\d+', str(v))
+                if m: return int(m.group(0))
+                if v in ('TRUE', 'FALSE'): return int(v == 'TRUE')
+    return default
+
+def segpkt_replay(doc, inp, r, work, root, repo):
+    fn = r['enforce']; a = inp['args']
+    bufs = [o for o in inp['objects'] if 'bytes' in o]
+    n = a.get('n')
+    if n is None or not bufs: doc['native'] = 'no-counterexample'; return
+    is_ctor = '_ctor__' in fn
+    frame = bytes.fromhex(bufs[-1]['bytes'])[:n] if is_ctor else None
+    if not is_ctor:
+        # objects: this, (payload buffer), data
+        frame = bytes.fromhex(bufs[-1]['bytes'])[:n]
+    n0 = fieldval(inp, '.payload.n'); st = fieldval(inp, '.segmentType'); ver = fieldval(inp, '.curVersion'); mt = fieldval(inp, '.curMessageType'); seq = fieldval(inp, '.curSegment')
+    old = bytes.fromhex(bufs[0]['bytes'])[:n0] if (not is_ctor and len(bufs) >= 2) else bytes(n0)
+    if len(old) < n0: old = old + bytes(n0 - len(old))
+    code = PRE + spec_native_prelude(root) + '''using SP = ASAM::CMP::Decoder::SegmentedPacket;
+int main(int argc, char** argv) {
+  auto in = unhex(argv[1]); std::vector<uint8_t> copy(in); const uint8_t* d = copy.data(); size_t n = copy.size();
+  unsigned v = atoi(argv[2]), t = atoi(argv[3]), s = atoi(argv[4]); bool ctor = atoi(argv[5]);
+  if (ctor) {
+    SP sp(d, n, (uint8_t)v, (ASAM::CMP::CmpHeader::MessageType)t, (uint16_t)s);
+    size_t want = 16 + (size_t)BE16(d, 14);
+    printf("stored=%zu expected=%zu\\n", sp.payload.size(), want);
+    return sp.payload.size() == want ? 0 : 3;
+  }
+  auto old = unhex(argv[6]); unsigned st = atoi(argv[7]), ver = atoi(argv[8]), mt = atoi(argv[9]), seq = atoi(argv[10]);
+  SP sp; sp.payload = old; sp.segmentType = (ASAM::CMP::MessageHeader::SegmentType)st; sp.curVersion = (uint8_t)ver; sp.curMessageType = (ASAM::CMP::CmpHeader::MessageType)mt; sp.curSegment = (uint16_t)seq;   // state-injected
+  size_t n0 = sp.payload.size();
+  bool ret = sp.addSegment(d, n, (uint8_t)v, (ASAM::CMP::CmpHeader::MessageType)t, (uint16_t)s);
+  bool want = SP_ACCEPT(st, ver, mt, seq, v, t, s, d, n);
+  printf("ret=%d expected=%d stored=%zu\\n", ret, want, sp.payload.size());
+  if (ret != want) return 3;
+  if (ret && sp.payload.size() != n0 + (size_t)BE16(d, 14)) return 4;
+  return 0;
+}
+'''
+    exe = build_driver(work, repo, 'drv_sp', code)
+    argv = [frame.hex(), str(a.get('v', 0)), str(a.get('t', 0)), str(a.get('s', 0)), '1' if is_ctor else '0', old.hex() or '00', str(st), str(ver), str(mt), str(seq)]
+    if not is_ctor and n0 == 0: argv[5] = ''
+    p = subprocess.run([exe] + argv, stdout=subprocess.PIPE, stderr=subprocess.PIPE, timeout=60)
+    doc['native_call'] = ('SegmentedPacket(first segment) ' if is_ctor else 'SegmentedPacket::addSegment [state-injected slot] ') + ' '.join(argv)[:400]
+    doc['native_observed'] = p.stdout.decode().strip(); doc['native_stderr'] = p.stderr.decode()[-600:]
+    doc['native_expected'] = 'stored == 16 + declared' if is_ctor else 'ret == accept-iff-next-segment (counter mod 2^16)'
+    doc['native'] = 'reproduced' if p.returncode != 0 else 'not-reproduced'
+    doc['replay_driver'] = code; doc['replay_argv'] = argv
+
 def family_of(r, root):
     name = r['name']
     if (r['enforce'] or '') in VALIDATORS: return validator_replay
+    if 'SegmentedPacket_ctor__uint8' in (r['enforce'] or '') or (r['enforce'] or '').endswith('SegmentedPacket_addSegment'): return segpkt_replay
     import gen_layout_specs as G
     classes, payloads = G.parse(os.path.join(root, 'specs', 'layout', 'wire.tbl'))
     fn = r['enforce'] or ''
